@@ -7,7 +7,7 @@ EXTENDS SchemaFamily
 Rev(q) == [ i \in 1..Len(q) |-> q[Len(q) + 1 - i] ]
 RevFields(w) == [w EXCEPT !.f = Rev(@)]
 
-SingleCases == UNION { { [S |-> SchemaOf(i), tn |-> "T" \o ToString(i), v |-> v] : v \in ValuesOf(i) } : i \in 1..Len(Specs) }
+SingleCases == UNION { { [S |-> SchemaOf(i), tn |-> NameOf(i), v |-> v] : v \in ValuesOf(i) } : i \in 1..Len(Specs) }
 MultiCs == { [S |-> MultiSchema, tn |-> c[1], v |-> c[2]] : c \in MultiCases }
 CaseSeq == SetToSeq(SingleCases \cup MultiCs)
 Out == [ i \in 1..Len(CaseSeq) |->
